@@ -260,4 +260,6 @@ def run(repo, tier):
     if repo.functions.get(B2D + '._sigmaclip_boxes') is not None:
         apply_specs(repo, res, [(B2D + '._sigmaclip_boxes', 'stmt', 'data = self.sigma_clip(data, axis=axis, masked=False, copy=False)',
                                  'boxes clipped along the axis (or axes) the caller names: the corner box is ONE sample')])
+    from .common import run_generic_pack
+    run_generic_pack(repo, res, PROP, MODS)
     return res
